@@ -65,6 +65,7 @@ Definition l_check_schedule (n : nat) (dur_ms : Z) : L unit :=
   match l_pending s with
   | [] => node_shutdown l_nt l_set_nt n
   | _ =>
+      if negb (ahas n (l_n2c s)) then ret tt else     (* has not reported its collection yet *)
       let num_nodes := zlen (l_n2p s) in
       if (num_nodes =? 0)%Z then raise EZeroDiv else
       let per := (zlen (l_pending s) / num_nodes)%Z in
@@ -102,7 +103,8 @@ Definition l_add_node_collection (n : nat) (coll : list string) : L unit :=
         if coll_eqb coll (c0 :: cr) then put (l_set_n2c s (aset n coll (l_n2c s)))
         else
           other <- of_opt (first_key (l_n2c s)) EOther ;;
-          emit (OLogDiff other n)
+          emit (OLogDiff other n) ;;;
+          node_shutdown l_nt l_set_nt n
     | _ => raise EAssert            (* assert self.collection *)
     end
   else put (l_set_n2c s (aset n coll (l_n2c s))).
@@ -126,6 +128,8 @@ Definition l_remove_node (n : nat) : L (option string) :=
   s <- get ;;
   pend <- of_opt (aget n (l_n2p s)) EKey ;;
   put (l_set_n2p s (adel n (l_n2p s))) ;;;
+  (s0 <- get ;; if l_collection_is_completed s0 then ret tt
+                else put (l_set_n2c s0 (adel n (l_n2c s0)))) ;;;   (* forget its collection *)
   match pend with
   | [] => ret None
   | i :: rest =>
